@@ -308,12 +308,13 @@ def model_rows(records):
 
 
 # ----------------------------------------------------------------------------- part: query
-USER_SHAPES = [((1, 3),), ((0, 1), (2, 4)), ((1, 2), (2, 3))]
+USER_SHAPES = [((1, 3),), ((0, 1), (2, 4)), ((1, 2), (2, 3)), ((0, 4), (1, 2))]  # the last one nests: its extent is not its last span's end
+NESTED_SHAPES = [((0, 4), (1, 2)), ((0, 3), (0, 1))]
 
 
 def universe(cls, line):
     if cls == "Basic":
-        return lattice(line, "user")
+        return lattice(line, "user") + [dict(r, name=r["name"] + "ns") for r in lattice(line, "user", shape_list=NESTED_SHAPES)]
     extra = []
     if cls == "Gff":
         # multi-row GFF features whose segments overlap / nest: the record's extent is not its last segment's end
